@@ -17,7 +17,9 @@ def clause_names(mask):
 
 def build_bases(tier):
     from bind import cait as B
-    progs = B.BASE_PROGRAMS if tier == "thorough" else B.BASE_PROGRAMS[::3] + B.BASE_PROGRAMS[23:24] + B.BASE_PROGRAMS[-2:]
+    # quick: every third base program plus the ones added for a specific mechanism, NAMED BY CONTENT (positions shift
+    # whenever the library grows: the sibling-conflict program silently dropped out of the quick tier once)
+    progs = B.BASE_PROGRAMS if tier == "thorough" else B.BASE_PROGRAMS[::3] + [p for p in B.QUICK_MUST_HAVE if p not in B.BASE_PROGRAMS[::3]]
     bases = []
     seen = set()
     for prog in progs:
